@@ -810,7 +810,10 @@ def build_framework(spec):
 
 def fill_ts(ts, v):
     if "a" in v:
+        # (a whole number may have been entered as an integer through the API: spec flag "int")
         ts.insert(None, v["a"])
+        if v.get("int") and float(v["a"]).is_integer():
+            ts.assumption = int(v["a"]) if v["int"] == "python" else np.int64(v["a"])  # (set directly: insert() converts to float)
     if "t" in v:
         for t, x in zip(v["t"], v["v"]):
             ts.insert(t, x)
